@@ -406,20 +406,32 @@ def _b64(ctx: Ctx, j: Judge, b: go.Built, obj: Any) -> None:
         j.call(f"{b.name}.b64decode/text-corrupt", lambda: cls.b64decode(bad))
 
 
+_P = 2**256 - 2**32 - 977
+
+
 def _predicates(ctx: Ctx, j: Judge, b: go.Built, mutants: list[tuple[str, bytes]]) -> None:
     """Boolean verifiers fed the corrupted artefact answer True or False."""
     q, msg = b.extra["q"], b.extra["msg"]
     pub = gk.compressed(q)
     bad_key = go.mutations(ctx.ch, pub, [go.Mark(0, 1, "flag"), go.Mark(1, 32, "field")], cap=6)
+    # the other declared spellings of a key: integers (BIP340PubKey) and points, outside every range
+    px, py = gk.pub_point(q)
+    odd_ints = [-1, 0, -px, _P - 1, _P, _P + 1, 2**256 - 1, 2**256, 2**256 + px, 2**300, 2**64]
+    odd_points = [(px, py ^ 1), (px, 0), (0, 0), (2**256, 1), (-1, 1), (px, 2**256 + py), (_P + px, py), (px, -py)]
     if b.name == "dsa.Sig":
         calls = [(f"dsa.verify_/{f}", lambda m=m: dsa.verify_(msg, pub, m)) for f, m in mutants]
         calls += [(f"dsa.verify_/key-{f}", lambda k=k: dsa.verify_(msg, k, b.raw)) for f, k in bad_key]
+        calls += [("dsa.verify_/key-odd-point", lambda k=k: dsa.verify_(msg, k, b.raw)) for k in ctx.ch.shuffled(odd_points, "odd.points")[:3]]
         genuine = lambda: dsa.verify_(msg, pub, b.raw)  # noqa: E731
     elif b.name == "ssa.Sig":
         x = gk.xonly(q)
         calls = [(f"ssa.verify_/{f}", lambda m=m: ssa.verify_(msg, x, m)) for f, m in mutants]
         calls += [(f"ssa.verify_/key-{f}", lambda k=k: ssa.verify_(msg, k, b.raw)) for f, k in bad_key]
         calls += [(f"ssa.batch_verify_/{f}", lambda m=m: ssa.batch_verify_([msg, msg], [x, x], [b.obj, ssa.Sig.parse(m, check_validity=False)])) for f, m in mutants if len(m) == 64]
+        odd = ctx.ch.shuffled(odd_ints, "odd.ints")[:3] + ctx.ch.shuffled(odd_points, "odd.points")[:2]
+        calls += [("ssa.verify_/key-odd", lambda k=k: ssa.verify_(msg, k, b.raw)) for k in odd]
+        calls += [("ssa.batch_verify_/key-odd", lambda k=k: ssa.batch_verify_([msg, msg], [x, k], [b.obj, b.obj])) for k in odd]
+        calls += [("ssa.batch_verify_/key-odd-first", lambda k=k: ssa.batch_verify_([msg, msg, msg], [k, x, x], [b.obj, b.obj, b.obj])) for k in odd[:2]]
         genuine = lambda: ssa.verify_(msg, x, b.raw)  # noqa: E731
     else:
         addr = p2pkh(pub)
